@@ -186,6 +186,12 @@ def c11_rest(ctx, facts, nr, memo):
     # on every path (a conditional wake-up leaves later pipelined requests in the queue until an earlier one is answered
     # and its thread comes back to recv)
     Q.rule_notify_after_push(ctx, "C11.5")
+    # ---- C11.6 discarding the unread body of an answered or dropped request leaves the successor's bytes where they are (it then becomes
+    # available): the drain of the length-limited reader takes exactly the bytes owed (rules of C09.2)
+    import drain_rules as DR
+    sk = shared.size_key_of(facts, ER)
+    ctx.require(sk is not None, "C11.6: remaining-size field of the length-limited reader")
+    DR.owed_rules(ctx, "C11.6", ER, (1, "*") + sk)
     return {}
 
 
